@@ -267,8 +267,12 @@ class Model:
                 raise AnalysisError("anchor vanished: BaseOxmlElement.insert_element_before")
             search = None
             if f is not None:
-                search = self._classify_search(f.node)
-            # (2) insert_element_before
+                search = self._classify_search(_for_else_to_next(f.node))
+            # (2) insert_element_before, read with `for ...: if ...: ...; break / else:` written as next(...) + if/else
+            import copy as _copy
+
+            ieb = _copy.copy(ieb)
+            ieb.node = _for_else_to_next(ieb.node)
             muts = _method_calls(ieb.node)
             args = ieb.params
             elm = args[1] if len(args) > 1 else None
@@ -357,6 +361,15 @@ class Model:
             for n in ast.walk(outer):
                 if isinstance(n, ast.FunctionDef) and n.name == innername:
                     return n, c.methods[meth]
+            # by role: the closure the method installs on the element class, whatever it is called (a shared generator helper
+            # inlined into this method keeps the helper's name for it)
+            installed = [x.args[1].id for x in ast.walk(outer) if isinstance(x, ast.Call) and dotted(x.func) == "self._add_to_class"
+                         and len(x.args) == 2 and isinstance(x.args[1], ast.Name)]
+            installed += [x.args[2].id for x in ast.walk(outer) if isinstance(x, ast.Call) and dotted(x.func) == "setattr"
+                          and len(x.args) == 3 and isinstance(x.args[2], ast.Name) and dotted(x.args[0]) == "self._element_cls"]
+            defs = [n for n in ast.walk(outer) if isinstance(n, ast.FunctionDef) and n is not outer and n.name in installed]
+            if len(defs) == 1:
+                return defs[0], c.methods[meth]
             raise AnalysisError("anchor vanished: xmlchemy.%s.%s.%s" % (clsname, meth, innername))
 
         with self._part('insert'):
@@ -582,6 +595,10 @@ class Model:
             return src in ("self", "self.iterchildren", "self.getchildren")
 
         for n in ast.walk(fnode):
+            # lazy pipeline: (self.find(qn(t)) for t in tagnames) consumed by next(c for c in ... if c is not None)
+            if isinstance(n, (ast.GeneratorExp, ast.ListComp)) and len(n.generators) == 1 and isinstance(n.generators[0].iter, ast.Name) \
+                    and n.generators[0].iter.id == varargs and isinstance(n.elt, ast.Call) and dotted(n.elt.func) == "self.find" and not allow_inline:
+                return "tag-order"
             if isinstance(n, ast.For):
                 it = n.iter
                 if isinstance(it, ast.Name) and it.id == varargs and isinstance(n.target, ast.Name):
@@ -618,6 +635,46 @@ class Model:
                             and dotted(c.left) == "%s.tag" % tgt and names_from_varargs(c.comparators[0]):
                         return ("doc-order", n.targets[0].id) if allow_inline else "doc-order"
         return None
+
+
+def _for_else_to_next(fnode):
+    """`for v in IT: if C: BODY; break` [`else: ELSE`]  ->  `v = next((v for v in IT if C), None)`; `if v is not None: BODY else: ELSE`
+    (the children of an element are never None, so finding none and finding None coincide).  Returns a rewritten deep copy."""
+    import copy
+
+    f = copy.deepcopy(fnode)
+
+    class R(ast.NodeTransformer):
+        def visit_For(self, n):
+            self.generic_visit(n)
+            if isinstance(n.target, ast.Name) and len(n.body) == 1 and isinstance(n.body[0], ast.If) and not n.body[0].orelse \
+                    and n.body[0].body and isinstance(n.body[0].body[-1], ast.Break) \
+                    and sum(isinstance(x, (ast.Break, ast.Continue)) for x in ast.walk(n)) == 1:
+                v = n.target.id
+                cond = n.body[0].test
+                gen = ast.GeneratorExp(elt=ast.Name(id=v, ctx=ast.Load()), generators=[ast.comprehension(
+                    target=ast.Name(id=v, ctx=ast.Store()), iter=n.iter, ifs=[cond], is_async=0)])
+                asg = ast.Assign(targets=[ast.Name(id=v, ctx=ast.Store())], value=ast.Call(
+                    func=ast.Name(id="next", ctx=ast.Load()), args=[gen, ast.Constant(value=None)], keywords=[]), type_comment=None)
+                test = ast.Compare(left=ast.Name(id=v, ctx=ast.Load()), ops=[ast.IsNot()], comparators=[ast.Constant(value=None)])
+                iff = ast.If(test=test, body=n.body[0].body[:-1] or [ast.Pass()], orelse=list(n.orelse))
+                return [ast.copy_location(asg, n), ast.copy_location(iff, n)]
+            return n
+
+        def generic_visit(self, node):
+            for fld in ("body", "orelse", "finalbody"):
+                b = getattr(node, fld, None)
+                if isinstance(b, list) and b and isinstance(b[0], ast.stmt):
+                    out = []
+                    for st in b:
+                        r = self.visit(st)
+                        out.extend(r if isinstance(r, list) else [r])
+                    setattr(node, fld, out)
+            return node
+
+    R().generic_visit(f)
+    ast.fix_missing_locations(f)
+    return f
 
 
 def generated_names(kind, p):
